@@ -450,8 +450,8 @@ func init() {
 			"goroutine schedules are sampled (stress) or forced at the one point that matters (between two Write calls of one transaction); fairness of the Go scheduler, memory pressure and kernel-level partial writes are outside the model",
 			"transactions fit the protocol: every field at most 65 535 bytes",
 		}
-		x.Add(&Family{Name: "forced-merge", Quick: 500, Thor: 8000, Run: runForcedMerge})
-		x.Add(&Family{Name: "reply-ctors", Quick: 3000, Thor: 100000, Run: runReplyCtors})
-		x.Add(&Family{Name: "outbox-stress", Quick: 120, Thor: 2500, Run: runOutboxStress})
+		x.Add(&Family{Name: "forced-merge", Quick: 500, Thor: 24000, Run: runForcedMerge})
+		x.Add(&Family{Name: "reply-ctors", Quick: 3000, Thor: 300000, Run: runReplyCtors})
+		x.Add(&Family{Name: "outbox-stress", Quick: 120, Thor: 7500, Run: runOutboxStress})
 	}
 }
